@@ -696,7 +696,9 @@ LEVEL_TEXT = ('Lean 4 theorems: for every history of structural reports the engi
               'replaying generated structural histories on a real Engine.')
 LEVEL_NOTE = ('Trusted: Lean kernel + standard axioms; the reports fed to the bookkeeping model are derived by the '
               'harness from the operations (their production is C09\'s model); published composite = hierarchy and '
-              'rebuild-continues-identically are checked by the oracle on the implementation, not proved.')
+              'rebuild-continues-identically are checked by the oracle on the implementation, not proved. A _move is '
+              'an addition plus a deletion in the model: the identity of a moved process instance with an update in '
+              'flight (known finding F19) is outside the model and judged by the oracle.')
 TECHNIQUE = 'Lean 4 refinement proof (bookkeeping ⊑ hierarchy) by induction over histories + replay correspondence'
 
 
